@@ -117,6 +117,7 @@ func (c *splitClient) PostAssign(e *Engine, st *State, lhs, rhs []ast.Expr, _ as
 }
 
 func (c *splitClient) PreAssign(e *Engine, st *State, lhs, rhs []ast.Expr, stmt ast.Stmt) *State {
+	st0 := st
 	// assignments to a variable used as a slice bound of source
 	for i, l := range lhs {
 		if c.startVar == nil || objOf(e.Info, l) != c.startVar || i >= len(rhs) {
@@ -127,6 +128,7 @@ func (c *splitClient) PreAssign(e *Engine, st *State, lhs, rhs []ast.Expr, stmt 
 			e.Site("C15/provenance", key, l, true, "initial offset 0")
 			continue
 		}
+		st = st.WithExt("c15adv", bump(st.Ext("c15adv")))
 		tok := spanField(e.Info, rhs[i], "End")
 		ok := tok != nil && c.semiFact(e, st, tok) && c.fromTokens(e, tok)
 		e.Site("C15/provenance", key, l, ok, "next piece starts at the End of a token known to be a semicolon token of Scan(source)")
@@ -134,7 +136,36 @@ func (c *splitClient) PreAssign(e *Engine, st *State, lhs, rhs []ast.Expr, stmt 
 			e.Site("C15/provenance", key, l, false, "the start of the next piece is not the Span.End of a TokenSemi token of Scan(source): pieces and semicolons would not tile the source")
 		}
 	}
+	if st != st0 {
+		return st
+	}
 	return nil
+}
+
+// LoopHead / LoopBack: within one turn of a loop the cut offset moves past a semicolon exactly as often as a piece
+// ending at a semicolon is taken - a semicolon that is passed without its piece loses the piece (and the caller's
+// count of statements), a piece taken without moving on is taken again.
+func (c *splitClient) LoopHead(e *Engine, st *State, loop ast.Stmt) *State {
+	if st.Ext("c15adv") == "" && st.Ext("c15cut") == "" {
+		return nil
+	}
+	return st.WithExt("c15adv", "").WithExt("c15cut", "")
+}
+
+func (c *splitClient) LoopBack(e *Engine, st *State, loop ast.Stmt) {
+	adv, cut := st.Ext("c15adv"), st.Ext("c15cut")
+	key := fmt.Sprintf("%s one piece per semicolon passed", c.fn)
+	e.Site("C15/provenance", key, loop, adv == cut, "on every path through the loop body the cut offset is moved past a semicolon exactly when the piece before that semicolon is taken")
+	if adv != cut {
+		e.Site("C15/provenance", key, loop, false, fmt.Sprintf("a path through the loop moves the cut offset past %s semicolon(s) but takes %s piece(s): a statement (even an empty one) disappears from the result or is returned twice, and the pieces no longer correspond one to one to the semicolons of the source", orZero(adv), orZero(cut)))
+	}
+}
+
+func orZero(s string) string {
+	if s == "" {
+		return "0"
+	}
+	return s
 }
 
 // fromTokens: tok is the value variable of a range over the Scan(source) result (or an element of it).
@@ -215,6 +246,9 @@ func (c *splitClient) Visit(e *Engine, st *State, n ast.Node) *State {
 	e.Site("C15/provenance", key, sl, ok2, how)
 	if !ok2 {
 		e.Site("C15/provenance", key, sl, false, "a bound of this slice of the source is not 0, the running cut offset, or Span.Start of a TokenSemi token of Scan(source): the splitter would cut somewhere the lexer does not see a semicolon token")
+	}
+	if sl.High != nil {
+		return st.WithExt("c15cut", bump(st.Ext("c15cut")))
 	}
 	return nil
 }
